@@ -15,13 +15,16 @@
 EXTENDS Naturals, Sequences, FiniteSets, TLC, SequencesExt
 
 CONSTANTS Slots, Cap, Buffers, Ids, PDUs, N, Depth,
+          Faults,      \* memory failures the environment may inject into one call (C08): subset of
+                       \* {"none", "new", "take", "save", "prov", "provc"}; {"none"} = a memory that never fails by itself
           Export       \* TRUE: record the adversary's inputs and print each behaviour of length Depth (S->I)
 
 Train(p) == [k \in 1..N |-> <<p, k>>]
 NoCtx == [used |-> FALSE, id |-> 0, buf |-> 0, toks |-> <<>>]
 NoG   == [open |-> FALSE, done |-> FALSE, toks |-> <<>>]
 
-VARIABLES st,     \* receiver + memory: [free (set), slot (slot -> context), owned (set, caller's hands)]
+VARIABLES st,     \* receiver + memory: [free (set), slot (slot -> context), owned (set, caller's hands),
+                  \*   limbo (set): buffers a failing memory kept when it answered MemoryCorrupted to save_frag / provision]
           g,      \* C03 ghost per id: tokens of the most recent accepted first fragment and all later fragments
           last,   \* ghost: what the last call did
           depth,
@@ -36,44 +39,56 @@ SlotOf(id) == id % Slots
 \* ------------------------------------------------ receiver as functions
 Res(s, t, d) == [st |-> s, t |-> t, deliv |-> d]       \* t: "completed" | "fragmented" | "rejected"
 
-RxComplete(s) ==
-  IF s.free = {} THEN Res(s, "rejected", <<>>)
-  ELSE LET b == CHOOSE x \in s.free : TRUE
-       IN Res([s EXCEPT !.free = s.free \ {b}, !.owned = s.owned \cup {b}], "completed", <<<<0, 0>>>>)
+\* give a buffer back on an error exit: the memory takes it, or refuses it (free list full, or injected
+\* "prov") and the buffer leaves in the error value, or swallows it while answering MemoryCorrupted ("provc")
+GiveBack(s, b, f) ==
+  IF f = "provc" THEN [s EXCEPT !.limbo = s.limbo \cup {b}]
+  ELSE IF f = "prov" \/ Cardinality(s.free) >= Cap THEN [s EXCEPT !.owned = s.owned \cup {b}]
+  ELSE [s EXCEPT !.free = s.free \cup {b}]
 
-RxFirst(s, id, p) ==
-  LET k == SlotOf(id) IN
-  IF s.slot[k].used
-  THEN Res([s EXCEPT !.slot[k] = [used |-> TRUE, id |-> id, buf |-> s.slot[k].buf, toks |-> <<<<p, 1>>>>]], "fragmented", <<>>)
+\* ok = FALSE: a complete packet that is rejected after its buffer was taken (unresolvable re-use label,
+\* PDU larger than the buffer ...)
+RxComplete(s, ok, f) ==
+  IF s.free = {} \/ f = "new" THEN Res(s, "rejected", <<>>)
+  ELSE LET b == CHOOSE x \in s.free : TRUE
+           s1 == [s EXCEPT !.free = s.free \ {b}]
+       IN IF ok THEN Res([s1 EXCEPT !.owned = s.owned \cup {b}], "completed", <<<<0, 0>>>>)
+          ELSE Res(GiveBack(s1, b, f), "rejected", <<>>)
+
+RxFirst(s, id, p, f) ==
+  LET k == SlotOf(id)
+      ctx(b) == [used |-> TRUE, id |-> id, buf |-> b, toks |-> <<<<p, 1>>>>]
+      \* save_frag fails: the memory keeps the buffer, the slot stays empty (new_frag emptied it)
+      saved(s1, b) == IF f = "save" THEN Res([s1 EXCEPT !.slot[k] = NoCtx, !.limbo = s1.limbo \cup {b}], "rejected", <<>>)
+                      ELSE Res([s1 EXCEPT !.slot[k] = ctx(b)], "fragmented", <<>>)
+  IN
+  IF f = "new" THEN Res(s, "rejected", <<>>)
+  ELSE IF s.slot[k].used THEN saved(s, s.slot[k].buf)
   ELSE IF s.free # {}
-  THEN LET b == CHOOSE x \in s.free : TRUE
-       IN Res([s EXCEPT !.free = s.free \ {b},
-                        !.slot[k] = [used |-> TRUE, id |-> id, buf |-> b, toks |-> <<<<p, 1>>>>]], "fragmented", <<>>)
+  THEN LET b == CHOOSE x \in s.free : TRUE IN saved([s EXCEPT !.free = s.free \ {b}], b)
   ELSE Res(s, "rejected", <<>>)
 
-RxInter(s, id, tok) ==
+RxInter(s, id, tok, f) ==
   LET k == SlotOf(id) IN
-  IF s.slot[k].used /\ s.slot[k].id = id /\ Len(s.slot[k].toks) < N + 1
-  THEN Res([s EXCEPT !.slot[k].toks = Append(s.slot[k].toks, tok)], "fragmented", <<>>)
+  IF f = "take" THEN Res(s, "rejected", <<>>)
+  ELSE IF s.slot[k].used /\ s.slot[k].id = id /\ Len(s.slot[k].toks) < N + 1
+  THEN IF f = "save" THEN Res([s EXCEPT !.slot[k] = NoCtx, !.limbo = s.limbo \cup {s.slot[k].buf}], "rejected", <<>>)
+       ELSE Res([s EXCEPT !.slot[k].toks = Append(s.slot[k].toks, tok)], "fragmented", <<>>)
   ELSE IF s.slot[k].used /\ s.slot[k].id = id
   THEN \* does not fit the storage any more: context dropped, buffer given back (or handed out when the free list is full)
-       Res([s EXCEPT !.slot[k] = NoCtx,
-                     !.free = IF Cardinality(s.free) < Cap THEN s.free \cup {s.slot[k].buf} ELSE s.free,
-                     !.owned = IF Cardinality(s.free) < Cap THEN s.owned ELSE s.owned \cup {s.slot[k].buf}], "rejected", <<>>)
+       Res(GiveBack([s EXCEPT !.slot[k] = NoCtx], s.slot[k].buf, f), "rejected", <<>>)
   ELSE Res(s, "rejected", <<>>)
 
 \* crc: the PDU whose train the CRC was computed over, or 0 for junk
-RxEnd(s, id, tok, crc) ==
+RxEnd(s, id, tok, crc, f) ==
   LET k == SlotOf(id) IN
-  IF s.slot[k].used /\ s.slot[k].id = id
+  IF f = "take" THEN Res(s, "rejected", <<>>)
+  ELSE IF s.slot[k].used /\ s.slot[k].id = id
   THEN LET all == Append(s.slot[k].toks, tok)
            ok  == crc \in PDUs /\ all = Train(crc)          \* length check and CRC check
        IN IF ok
           THEN Res([s EXCEPT !.slot[k] = NoCtx, !.owned = s.owned \cup {s.slot[k].buf}], "completed", all)
-          ELSE Res([s EXCEPT !.slot[k] = NoCtx,
-                             !.free = IF Cardinality(s.free) < Cap THEN s.free \cup {s.slot[k].buf} ELSE s.free,
-                             !.owned = IF Cardinality(s.free) < Cap THEN s.owned ELSE s.owned \cup {s.slot[k].buf}],
-                   "rejected", <<>>)
+          ELSE Res(GiveBack([s EXCEPT !.slot[k] = NoCtx], s.slot[k].buf, f), "rejected", <<>>)
   ELSE Res(s, "rejected", <<>>)
 
 Provision(s, b) ==
@@ -81,50 +96,62 @@ Provision(s, b) ==
 
 \* ------------------------------------------------------------- behaviour
 Init ==
-  /\ st = [free |-> {}, slot |-> [k \in 0..(Slots - 1) |-> NoCtx], owned |-> Buffers]
-  /\ g = [i \in Ids |-> NoG] /\ last = [t |-> "none", id |-> 0, deliv |-> <<>>, wasDone |-> FALSE, gtoks |-> <<>>, gopen |-> FALSE, pre |-> st]
+  /\ st = [free |-> {}, slot |-> [k \in 0..(Slots - 1) |-> NoCtx], owned |-> Buffers, limbo |-> {}]
+  /\ g = [i \in Ids |-> NoG] /\ last = [t |-> "none", id |-> 0, deliv |-> <<>>, wasDone |-> FALSE, gtoks |-> <<>>, gopen |-> FALSE, pre |-> st, claimed |-> -1]
   /\ depth = 0 /\ hist = <<>>
 
-Mark(r, id, wasDone, gt, go) ==
-  last' = [t |-> r.t, id |-> id, deliv |-> r.deliv, wasDone |-> wasDone, gtoks |-> gt, gopen |-> go, pre |-> st]
+MarkC(r, id, wasDone, gt, go, c) ==
+  last' = [t |-> r.t, id |-> id, deliv |-> r.deliv, wasDone |-> wasDone, gtoks |-> gt, gopen |-> go, pre |-> st, claimed |-> c]
+Mark(r, id, wasDone, gt, go) == MarkC(r, id, wasDone, gt, go, -1)
 
 DoProvision == \E b \in st.owned : st' = Provision(st, b) /\ g' = g /\ depth' = depth + 1
-                                   /\ last' = [last EXCEPT !.t = "provision", !.deliv = <<>>, !.pre = st]
+                                   /\ last' = [last EXCEPT !.t = "provision", !.deliv = <<>>, !.pre = st, !.claimed = -1]
                                    /\ Rec("provision:0")
 
-DoComplete == LET r == RxComplete(st) IN st' = r.st /\ g' = g /\ depth' = depth + 1 /\ Mark(r, 0, FALSE, <<>>, FALSE)
-                                         /\ Rec("complete:0")
+FTok(tok, f) == IF f = "none" THEN tok ELSE tok \o ":F" \o f
+DoComplete(ok, f) ==
+  LET r == RxComplete(st, ok, f) IN st' = r.st /\ g' = g /\ depth' = depth + 1 /\ Mark(r, 0, FALSE, <<>>, FALSE)
+                                    /\ Rec(FTok(IF ok THEN "complete:0" ELSE "badcomplete:0", f))
 
-DoFirst(id, p) ==
-  LET r == RxFirst(st, id, p) IN
+\* ghost under an injected failure: a call cut short before anything changed ("new", "take") counts as a packet
+\* lost before the receiver; a failed save closes the train (the memory swallowed the context)
+DoFirst(id, p, f) ==
+  LET r == RxFirst(st, id, p, f) IN
   /\ st' = r.st /\ depth' = depth + 1
-  /\ g' = IF r.t = "fragmented" THEN [g EXCEPT ![id] = [open |-> TRUE, done |-> FALSE, toks |-> <<<<p, 1>>>>]] ELSE g
-  /\ Mark(r, id, FALSE, <<>>, FALSE) /\ Rec(T2(T2("first", id), p))
+  /\ g' = IF r.t = "fragmented" THEN [g EXCEPT ![id] = [open |-> TRUE, done |-> FALSE, toks |-> <<<<p, 1>>>>]]
+          ELSE IF f = "save" THEN [g EXCEPT ![id] = NoG] ELSE g
+  \* the slot is claimed as soon as new_frag succeeded, even if saving the new context fails afterwards
+  /\ MarkC(r, id, FALSE, <<>>, FALSE, IF f # "new" /\ (st.slot[SlotOf(id)].used \/ st.free # {}) THEN SlotOf(id) ELSE -1)
+  /\ Rec(FTok(T2(T2("first", id), p), f))
 
-DoInter(id, p, k) ==
-  LET r == RxInter(st, id, <<p, k>>) IN
+DoInter(id, p, k, f) ==
+  LET r == RxInter(st, id, <<p, k>>, f) IN
   /\ st' = r.st /\ depth' = depth + 1
-  /\ g' = IF g[id].open /\ Len(g[id].toks) <= N THEN [g EXCEPT ![id].toks = Append(g[id].toks, <<p, k>>)] ELSE g
-  /\ Mark(r, id, FALSE, <<>>, FALSE) /\ Rec(T2(T2(T2("inter", id), p), k))
+  /\ g' = IF f = "take" THEN g
+          ELSE IF f = "save" /\ r.t = "rejected" /\ st.slot[SlotOf(id)].used /\ st.slot[SlotOf(id)].id = id THEN [g EXCEPT ![id] = NoG]
+          ELSE IF g[id].open /\ Len(g[id].toks) <= N THEN [g EXCEPT ![id].toks = Append(g[id].toks, <<p, k>>)] ELSE g
+  /\ Mark(r, id, FALSE, <<>>, FALSE) /\ Rec(FTok(T2(T2(T2("inter", id), p), k), f))
 
-DoEnd(id, p, k, crc) ==
-  LET r  == RxEnd(st, id, <<p, k>>, crc)
+DoEnd(id, p, k, crc, f) ==
+  LET r  == RxEnd(st, id, <<p, k>>, crc, f)
       gt == Append(g[id].toks, <<p, k>>)
   IN /\ st' = r.st /\ depth' = depth + 1
-     /\ g' = IF g[id].open
+     /\ g' = IF f = "take" THEN g
+             ELSE IF g[id].open
              THEN [g EXCEPT ![id] = [open |-> ~(r.t = "completed"), done |-> (r.t = "completed"),
                                      toks |-> IF Len(gt) <= N + 1 THEN gt ELSE g[id].toks]]
              ELSE g
-     /\ Mark(r, id, g[id].done, gt, g[id].open) /\ Rec(T2(T2(T2(T2("end", id), p), k), crc))
+     /\ Mark(r, id, g[id].done, gt, g[id].open) /\ Rec(FTok(T2(T2(T2(T2("end", id), p), k), crc), f))
 
-Garbage == st' = st /\ g' = g /\ depth' = depth + 1 /\ last' = [last EXCEPT !.t = "garbage", !.deliv = <<>>, !.pre = st]
+Garbage == st' = st /\ g' = g /\ depth' = depth + 1 /\ last' = [last EXCEPT !.t = "garbage", !.deliv = <<>>, !.pre = st, !.claimed = -1]
            /\ Rec("garbage:0")
 
 Next ==
-  \/ DoProvision \/ DoComplete \/ Garbage
-  \/ \E id \in Ids, p \in PDUs : DoFirst(id, p)
-  \/ \E id \in Ids, p \in PDUs, k \in 2..N : DoInter(id, p, k)
-  \/ \E id \in Ids, p \in PDUs, k \in 2..N, c \in PDUs \cup {0} : DoEnd(id, p, k, c)
+  \/ DoProvision \/ Garbage
+  \/ \E ok \in BOOLEAN, f \in Faults \cap {"none", "new", "prov", "provc"} : DoComplete(ok, f)
+  \/ \E id \in Ids, p \in PDUs, f \in Faults \cap {"none", "new", "save"} : DoFirst(id, p, f)
+  \/ \E id \in Ids, p \in PDUs, k \in 2..N, f \in Faults \cap {"none", "take", "save", "prov", "provc"} : DoInter(id, p, k, f)
+  \/ \E id \in Ids, p \in PDUs, k \in 2..N, c \in PDUs \cup {0}, f \in Faults \cap {"none", "take", "prov", "provc"} : DoEnd(id, p, k, c, f)
 
 Spec == Init /\ [][Next]_vars
 Bounded == depth <= Depth
@@ -134,19 +161,21 @@ View == <<st, g>>
 SlotBufs(s) == {s.slot[k].buf : k \in {x \in DOMAIN s.slot : s.slot[x].used}}
 \* C08: every buffer is in exactly one place
 Conservation ==
-  /\ st.free \cup SlotBufs(st) \cup st.owned = Buffers
+  /\ st.free \cup SlotBufs(st) \cup st.owned \cup st.limbo = Buffers
   /\ st.free \cap SlotBufs(st) = {} /\ st.free \cap st.owned = {} /\ SlotBufs(st) \cap st.owned = {}
+  /\ st.limbo \cap (st.free \cup SlotBufs(st) \cup st.owned) = {}
+  /\ (Faults \subseteq {"none", "new", "take", "prov"} => st.limbo = {})     \* nothing is ever swallowed unless the memory says MemoryCorrupted
   /\ Cardinality(SlotBufs(st)) = Cardinality({x \in DOMAIN st.slot : st.slot[x].used})
 
 \* C16: from every reachable state, once one more buffer `bx` is made available (or the free list is
 \* full), a complete packet and a fragmented PDU on any id are delivered
 ProbeState == [st EXCEPT !.free = IF Cardinality(st.free) < Cap THEN st.free \cup {99} ELSE st.free]
 Recovers ==
-  /\ RxComplete(ProbeState).t = "completed"
+  /\ RxComplete(ProbeState, TRUE, "none").t = "completed"
   /\ \A id \in Ids, p \in PDUs :
-       LET s1 == RxFirst(ProbeState, id, p)
-           s2 == RxInter(s1.st, id, <<p, 2>>)
-           s3 == RxEnd(s2.st, id, <<p, N>>, p)
+       LET s1 == RxFirst(ProbeState, id, p, "none")
+           s2 == RxInter(s1.st, id, <<p, 2>>, "none")
+           s3 == RxEnd(s2.st, id, <<p, N>>, p, "none")
        IN s1.t = "fragmented" /\ (N = 3 => s2.t = "fragmented" /\ s3.t = "completed" /\ s3.deliv = Train(p))
 
 \* on every explored transition:
@@ -163,6 +192,7 @@ OthersUntouched ==
      last.pre.slot[k].used /\ last.t \in {"completed", "fragmented", "rejected", "garbage"}
        /\ last.pre.slot[k].id # last.id
        /\ ~(last.t = "fragmented" /\ SlotOf(last.id) = k /\ st.slot[k].id = last.id /\ Len(st.slot[k].toks) = 1)
+       /\ last.claimed # k
      => st.slot[k] = last.pre.slot[k]
 StepAlways == [][DeliverOnlyVerified' /\ ExactlyOnce' /\ OthersUntouched']_vars
 =============================================================================
